@@ -1,9 +1,14 @@
 #!/usr/bin/env python3
-# usage: dbg.py file.v LINE  -> compiles file up to LINE (exclusive), then prints goals
+# usage: tools/dbg.py coq/A/File.v LINE  -> compiles the file up to LINE (exclusive), then prints the open goals
 import sys,subprocess,os
 f,line=sys.argv[1],int(sys.argv[2])
+root=os.path.join(os.path.dirname(os.path.dirname(os.path.abspath(__file__))),'coq')
 src=open(f).read().split('\n')
-tmp='/tmp/dbg_'+os.path.basename(f)
+tmp='/tmp/dbg_%d_%s'%(os.getpid(),os.path.basename(f))
 open(tmp,'w').write('\n'.join(src[:line-1])+'\nShow.\nAbort.\n')
-r=subprocess.run(['coqc',*sum((['-Q','/verif/coq/'+d,'Verif'] for d in ['base','gen','A','B','C','corr','props']),[]),'-w','-all',tmp],capture_output=True,text=True)
+q=sum((['-Q',os.path.join(root,d),'Verif'] for d in ['base','gen','A','B','C','corr','props']),[])
+r=subprocess.run(['timeout','600','coqc',*q,'-w','-all',tmp],capture_output=True,text=True)
 print(r.stdout[-6000:]);print(r.stderr[-3000:])
+for e in ('','o','ok','os'):
+    try: os.remove(tmp+e if e=='' else tmp[:-2]+'.v'+e)
+    except OSError: pass
